@@ -87,3 +87,15 @@ package mapping
 //@   call validateJsonNumberRange#0: assert arg_v == v && arg_opts == opts
 //@   call SetValue#0: assert vr == nil && vo == nil
 //@   loop 0: invariant vr == nil && vo == nil
+
+// parseNumberRange: an omitted end is unbounded on that side (the extreme float64, so that every finite value passes), a
+// given end is the parsed number; the result is never an empty or inverted interval.
+//@ func parseNumberRange
+//@   property C08
+//@   float ieee
+//@   results nr, err
+//@   ensures implies(err == nil, nr != nil && !(nr.left > nr.right))
+//@   ensures implies(err == nil && len(fields[0]) == 0, nr.left == -math.MaxFloat64)
+//@   ensures implies(err == nil && len(fields[1]) == 0, nr.right == math.MaxFloat64)
+//@   ensures implies(err == nil && nr.left == nr.right, nr.leftInclude && nr.rightInclude)
+//@   allocates
